@@ -12,10 +12,16 @@ open("coq/_CoqProject", "w").write("\n".join(out) + "\n")
 # claims.json: union (ours wins on equal keys)
 co = json.loads(show("HEAD", "tools/claims.json")); ct = json.loads(show(branch, "tools/claims.json"))
 for k, v in ct.items():
-    co.setdefault(k, v)
+    if k == branch.split("/")[-1].upper():
+        co[k] = v
+    else:
+        co.setdefault(k, v)
 json.dump(co, open("tools/claims.json", "w"), indent=1)
 # KNOWN_FINDINGS.json: ours + their entries we do not have
 ko = json.loads(show("HEAD", "KNOWN_FINDINGS.json")); kt = json.loads(show(branch, "KNOWN_FINDINGS.json"))
+# the slice owns the entries of its own property (branch slice/cNN -> CNN): theirs win there
+own = branch.split("/")[-1].upper()
+ko["findings"] = [f for f in ko["findings"] if f["property"] != own or not any(g["property"] == own for g in kt["findings"])]
 have = {(f["property"], f["trigger"]) for f in ko["findings"]}
 for f in kt["findings"]:
     if (f["property"], f["trigger"]) not in have:
